@@ -16,6 +16,25 @@ CLAIMED = {
         "~75k grid points against the real function each run), the meaning of NumPy integer dtype names.",
         "Lean 4 proof (grind) on a translator-regenerated definition + exhaustive boundary-grid correspondence",
         "DESIGN.md §5 C19"),
+    "C08": (
+        "Lean 4 theorems: each two-pointer kernel model (index loop with cached heads, no-overlap shortcuts, tail copies) "
+        "refines a structural list merge (loop_refines), which meets the set specification on strictly increasing lists "
+        "(membership iff + strictly increasing), incl. the None conventions of the wrappers and the k-way union for any "
+        "number of arrays. Correspondence: impl (kernels rebuilt from the current .pyx) vs model on all pairs of subsets "
+        "of a universe containing 0 and 2^32-1 and on random overlap patterns; oracle = Python set algebra on the real code.",
+        "Trusted: Lean kernel; the hand-written kernel model is tied to the .pyx only by correspondence on generated inputs "
+        "(exhaustive up to 6/8 elements); uint32 value range and C int pointer width are outside the model.",
+        "Lean 4 proof (loop refinement by fun_induction + set algebra on sorted lists) + exhaustive small-scope correspondence",
+        "DESIGN.md §5 C08"),
+    "C09": (
+        "Lean 4 theorems for ALL arrays (no sortedness): every checked read/write of the kernel models succeeds and the "
+        "written prefix fits the allocation (min(len,len), len+len, len(left)). The model's Err is tied to the code by a "
+        "bounds-checked twin built mechanically from the current .pyx (IndexError <-> Err on every enumerated input) and, in "
+        "the thorough tier, by an AddressSanitizer build of the unmodified .pyx.",
+        "Trusted: Lean kernel; Cython/gcc lowering of index expressions; the twin differs only in boundscheck(True). "
+        "Not covered: arrays of >= 2^31 elements (C int pointers).",
+        "Lean 4 proof (loop refinement with checked accesses) + bounds-checked twin / ASan correspondence",
+        "DESIGN.md §5 C09"),
 }
 PENDING = {}
 
